@@ -20,7 +20,10 @@ Inductive vres :=
        (paths : list (list nat)).
 
 Inductive c10_case :=
-| CV (H W : nat) (vops : list vop) (glyphs : bool) (cwt : list (N * nat)) (ph pw : N) (c : ct) (v : vtree) (impl : vres).
+| CV (exact : bool) (H W : nat) (vops : list vop) (glyphs : bool) (cwt : list (N * nat)) (ph pw : N) (c : ct) (v : vtree)
+     (impl : vres).
+(* exact = false: the tree has flex factors whose f64 arithmetic the model does not reproduce (non-dyadic or
+   extreme ratios); such a case is judged by the property predicate alone *)
 
 (* ---------- equality of observations ---------- *)
 Definition ct_eqb (a b : ct) : bool :=
@@ -215,9 +218,9 @@ Definition holds_v (H W : nat) (vops : list vop) (glyphs : bool) (c : ct) (v : v
 
 Definition c10_check (cs : c10_case) : bool * bool :=
   match cs with
-  | CV H W vops glyphs cwt ph pw c v impl =>
+  | CV exact H W vops glyphs cwt ph pw c v impl =>
       let vc := mkV (mkCtx glyphs cwt dfa0 []) ph pw in
-      (vres_eqb (model_v H W vops vc c v) impl, holds_v H W vops glyphs c v impl)
+      ((if exact then vres_eqb (model_v H W vops vc c v) impl else true), holds_v H W vops glyphs c v impl)
   end.
 
 Definition c10_report := report c10_check.
